@@ -106,6 +106,7 @@ class Registry:
         self.opaque: set[str] = set()
         self.consts: dict[str, object] = {}
         self.maplike: set[str] = set()  # classes whose .map(f, xs) is assumed to be [f(x) for x in xs]
+        self.disjoint: set[tuple[str, str]] = set()  # pairs of classes declared to have no common instance (no class inherits from both)
         self.hooks: dict[str, object] = {}  # vocabulary hooks (e.g. "box_tuple": definition facts of a boxed tuple)
         self.exc_bases: dict[str, list[str]] = {
             "Exception": [],
